@@ -181,12 +181,22 @@ class ConvWorld(QueryWorld):
                 if args[0].role not in obj.nodes:
                     obj.nodes.append(args[0].role)
                 return NONE
+            if name in ("nodes", "nodes_iter", "__iter__") and not args and not kwargs:
+                # the nodes the result has so far: the ones added explicitly and the endpoints of the recorded interactions
+                have = list(obj.nodes) + [x.role for c in obj.calls if _adds(c) for x in c[:2] if isinstance(x, NodeV)]
+                return ListObj([NodeV(r) for r in dict.fromkeys(have)])
             raise Unsupported(node, "method %s of the result graph" % name)
         if isinstance(obj, AttrOf) and name == "update":
             return NONE
         if isinstance(obj, AttrOf) and name in ("copy",):
             return DeepCopy(obj)
         return super().call_method(ip, obj, name, args, kwargs, node)
+
+
+def _adds(call):
+    """does the recorded add_interaction(u, v, t, e) add anything (an empty span e <= t does not)"""
+    u, v, t, e = call
+    return not (isinstance(t, Int) and isinstance(e, Int) and t.base == e.base and e.k <= t.k)
 
 
 # -------------------------------------------------------------------------------------------------------
@@ -216,7 +226,7 @@ def _replay(calls, directed):
         elif isinstance(e, Int) and e.base == "t":
             lo, hi = t.k, e.k - 1
             if hi < lo:
-                hi = lo            # e <= t: treated as a point by the merge (C01 does not quantify over it)
+                continue           # e <= t: an empty span adds nothing (C01)
         else:
             return pres, None, "e=%r is not an instant" % (e,)
         k = (u.role, v.role) if directed else tuple(sorted((u.role, v.role)))
@@ -387,3 +397,118 @@ def _judge(rep, construct, cls, mname, recip, shape, w, val, r, order):
     if lost:
         rep.finding("C16.graph", construct, "nodes-lost", "%s: node(s) %s of the source are not in the result" % (mname, ",".join(lost)),
                     witness=wit)
+
+
+# =======================================================================================================================
+# time_slice at graph level (C06): several pairs at once - what one pair's clipping does to the window of the next, ties
+# between pairs, node ids that are never ordered, the node set of the slice
+# =======================================================================================================================
+SLICE_WINDOWS = [(1, 1), (1, 2), (2, 3), (1, 3), (3, 3), (2, None)]
+
+
+def check_time_slice_on_graphs(repo: Repo, rep: Report, tier="quick"):
+    all_methods = {c: repo.class_methods(rel, c) for c, rel in CLASSES.items()}
+    ot = OrderType([["t"]], [], 8)
+    n_runs = 0
+    for cls in CLASSES:
+        rel = CLASSES[cls]
+        methods = all_methods[cls]
+        if "time_slice" not in methods:
+            raise AnalysisError("anchor vanished: %s.time_slice" % cls)
+        fn = methods["time_slice"]
+        params = [a.arg for a in fn.args.args]
+        if params != ["self", "t_from", "t_to"]:
+            raise AnalysisError("%s.time_slice: unexpected signature %s" % (cls, params))
+        construct = repo.construct(rel, cls + ".time_slice") + "[graph]"
+        directed = cls == "DynDiGraph"
+        n_val = 0
+        for shape, varied_sets in _job_shapes(directed):
+            keys = sorted(shape.key(*e) for e in shape.edges)
+            varied = [k for k in keys if set(k) in varied_sets]
+            fixed = [k for k in keys if k not in varied]
+            fixed_patterns = [(True, False, False), (False, True, True)] if tier == "quick" else list(itertools.product((False, True), repeat=3))
+            for vals in itertools.product((False, True), repeat=len(varied) * len(OFFS)):
+                for fp in fixed_patterns:
+                    seed = {}
+                    it = iter(vals)
+                    for k in varied:
+                        for o in OFFS:
+                            seed[("present", k, repr(T(o)))] = next(it)
+                    for k in fixed:
+                        for o, p in zip(OFFS, fp):
+                            seed[("present", k, repr(T(o)))] = p
+                    n_val += 1
+                    for (lo, hi) in SLICE_WINDOWS:
+                        def once(ch, lo=lo, hi=hi):
+                            w = ConvWorld(cls, shape, ch, methods, {}, all_methods, list(shape.nodes))
+                            ip = Interp(w, ot, max_depth=10)
+                            env = {"self": SelfV(), "t_from": T(lo), "t_to": T(hi) if hi is not None else NONE}
+                            try:
+                                return w, ip.call_function(fn, env), None
+                            except AbstractRaise as r:
+                                return w, None, r
+                        for ch, (w, val, r) in run_all_choices(once, max_runs=16, seed=seed):
+                            n_runs += 1
+                            _judge_slice(rep, construct, cls, shape, w, val, r, lo, hi if hi is not None else lo)
+        rep.ob("C06.graph", construct, "presence of the slice = presence of the source inside the window, pair by pair and instant by instant, "
+               "and nodes = endpoints, on %d presence valuations x %d windows" % (n_val, len(SLICE_WINDOWS)))
+    rep.stats["abstract_runs"] = rep.stats.get("abstract_runs", 0) + n_runs
+    return n_runs
+
+
+def _judge_slice(rep, construct, cls, shape, w, val, r, lo, hi):
+    st = _stored(w)
+    arrow = "->" if shape.directed else "-"
+    wit = "%s | stored: %s | window [t%+d, t%+d]" % (shape.name, "; ".join("%s%s%s=%s" % (k[0], arrow, k[1], _fmt(s - {-2, 6}))
+                                                                             for k, s in sorted(st.items())), lo, hi)
+    if r is not None:
+        rep.finding("C06.graph", construct, "raises:%s" % r.exc, "time_slice raises %s (%s) for a valid window" % (r.exc, r.detail), witness=wit,
+                    line=getattr(r.node, "lineno", 0))
+        return
+    if isinstance(val, Opaque):
+        raise Unsupported(None, "time_slice returns a value the interpretation does not know: %r" % (val,))
+    if not isinstance(val, RecGraph) or val.cls != cls:
+        rep.finding("C06.graph", construct, "wrong-class", "time_slice returns %r, expected a new %s" % (val, cls), witness=wit)
+        return
+    if w.id_order_asked:
+        a, sym, b, line = w.id_order_asked[0]
+        rep.finding("C06.graph", construct, "orders-node-ids",
+                    "time_slice compares the node ids %s %s %s: node ids need only be hashable, and a graph whose ids cannot be ordered (1 and 'a') "
+                    "makes the slice raise TypeError" % (a, sym, b), witness=wit, line=line)
+    if w.effects:
+        rep.finding("C06.graph", construct, "writes-source", "time_slice writes the source graph: %s" % (w.effects[0][0],), witness=wit,
+                    line=w.effects[0][1])
+    pres, rejected, malformed = _replay(val.calls, shape.directed)
+    if malformed:
+        rep.finding("C06.graph", construct, "malformed-call", "add_interaction receives %s" % malformed, witness=wit)
+        return
+    if rejected:
+        k, lo_, start = rejected
+        rep.finding("C06.graph", construct, "re-add-rejected", "the spans of %s%s%s are re-added out of order: a span starting at t%+d follows a run "
+                    "starting at t%+d, which add_interaction rejects with ValueError" % (k[0], arrow, k[1], lo_, start), witness=wit)
+        return
+    window = set(range(lo, hi + 1))
+    want = {}
+    for (u, v), s in st.items():
+        k = (u, v) if shape.directed else tuple(sorted((u, v)))
+        inside = s & window
+        if inside:
+            want.setdefault(k, set()).update(inside)
+    idx = {n: i for i, n in enumerate(shape.nodes)}
+    for k in sorted(set(want) | set(pres)):
+        g, wn = pres.get(k, set()), want.get(k, set())
+        if g == wn:
+            continue
+        missing, extra = wn - g, g - wn
+        if extra:
+            rep.finding("C06.graph", construct, "extra", "{%s,%s} is present at %s in the slice although the window holds %s of it" % (
+                k[0], k[1], _fmt(extra), _fmt(wn)), witness=wit)
+        if missing:
+            origin = "target-enumerated-before-source" if shape.directed and idx[k[1]] < idx[k[0]] else "inside-the-window"
+            rep.finding("C06.graph", construct, "missing(%s)" % origin, "%s%s%s is absent at %s in the slice; the window holds %s of it, the slice has %s" % (
+                k[0], arrow, k[1], _fmt(missing), _fmt(wn), _fmt(g)), witness=wit)
+    have = set(val.nodes) | {x.role for c in val.calls if _adds(c) for x in c[:2] if isinstance(x, NodeV)}
+    want_nodes = {x for k in want for x in k}
+    if not (set(pres) ^ set(want)) and have != want_nodes:
+        rep.finding("C06.graph", construct, "nodes", "the slice has the nodes %s; the endpoints of the interactions inside the window are %s" % (
+            sorted(have), sorted(want_nodes)), witness=wit)
